@@ -23,7 +23,7 @@ def main():
         for o in r.obligations:
             tally[o['result']] = tally.get(o['result'], 0) + 1
             if o['result'] != 'discharged':
-                print('   ', o['name'], o['kind'], o['result'], o.get('note'), o.get('model'), o.get('reason'))
+                print('   ', o['name'], o['kind'], o['result'], o.get('note'), {k: (v if len(v) < 150 else v[:60] + '...') for k, v in (o.get('model') or {}).items()}, o.get('reason'))
         print('   tally', tally, 'flags', sorted(r.flags))
         if os.environ.get('BOUNDED'):
             nc = native.NativeContract(c)
